@@ -89,7 +89,7 @@ static void put_msg (DBusMessage *m)
   printf (",\"args\":[");
   dbus_message_iter_init (m, &it);
   while (dbus_message_iter_get_arg_type (&it) != DBUS_TYPE_INVALID) { if (!first) putchar (','); first = 0; put_arg (&it); dbus_message_iter_next (&it); }
-  printf ("],\"fl\":%d,\"nfd\":0,\"unk\":[],\"ci\":false,\"mal\":false}",
+  printf ("],\"fl\":%d,\"nfd\":0,\"fds\":[],\"unk\":[],\"ci\":false,\"mal\":false}",
           (dbus_message_get_no_reply (m) ? 1 : 0) | (dbus_message_get_auto_start (m) ? 0 : 2));
 }
 
@@ -185,7 +185,7 @@ int main (int argc, char **argv)
   _dbus_string_init_const (&cfg, argv[1]);
   ctx = bus_context_new (&cfg, BUS_CONTEXT_FLAG_NONE, NULL, NULL, NULL, &e);
   if (!ctx) { fprintf (stderr, "context: %s\n", e.message); return 2; }
-  printf ("{\"e\":\"Reset\",\"cfg\":{\"maxNames\":100000,\"maxMatch\":100000,\"maxReplies\":100000,\"maxCompleted\":100000,\"maxPerUser\":100000,\"busUid\":0,\"policy\":{\"kind\":\"allow-all\"}}}\n");
+  printf ("{\"e\":\"Reset\",\"cfg\":{\"maxNames\":100000,\"maxMatch\":100000,\"maxReplies\":100000,\"maxCompleted\":100000,\"maxPerUser\":100000,\"busUid\":0,\"policy\":{\"kind\":\"allow-all\"},\"maxMsgFds\":16}}\n");
   for (i = 1; i <= NCLIENT; i++)
     {
       cl[i] = dbus_connection_open_private ("debug-pipe:name=test-server", &e);
@@ -240,7 +240,7 @@ int main (int argc, char **argv)
       drain_all ();
       {
         int off = 0, j;
-        if (!strcmp (kind, "hello") && !connected[c]++) off += snprintf (op + off, sizeof op - off, "{\"k\":\"connect\",\"uid\":0,\"oom\":false},");
+        if (!strcmp (kind, "hello") && !connected[c]++) off += snprintf (op + off, sizeof op - off, "{\"k\":\"connect\",\"uid\":0,\"fdcap\":false,\"oom\":false},");
         off += snprintf (op + off, sizeof op - off, "{\"k\":\"%s\",\"ser\":%u,\"fl\":%d,\"oom\":%s,\"allocs\":%d",
                          !strcmp (kind, "list") ? "query" : !strcmp (kind, "sig") || !strcmp (kind, "call") ? "send" : kind, ser,
                          (dbus_message_get_no_reply (m) ? 1 : 0) | (dbus_message_get_auto_start (m) ? 0 : 2), k >= 0 ? "true" : "false", counted);
@@ -277,7 +277,7 @@ int main (int argc, char **argv)
             const char *f[6]; int q;
             f[0] = dbus_message_get_destination (m); f[1] = dbus_message_get_path (m); f[2] = dbus_message_get_interface (m);
             f[3] = dbus_message_get_member (m); f[4] = NULL; f[5] = dbus_message_get_signature (m);
-            off += snprintf (op + off, sizeof op - off, ",\"ty\":%d,\"rs\":0,\"nfd\":0,\"fsnd\":[]", dbus_message_get_type (m));
+            off += snprintf (op + off, sizeof op - off, ",\"ty\":%d,\"rs\":0,\"nfd\":0,\"att\":[],\"fsnd\":[]", dbus_message_get_type (m));
             for (q = 0; q < 6; q++)
               {
                 static const char *nm[] = { "dst", "path", "ifc", "mem", "err", "sig" };
